@@ -422,12 +422,14 @@ def gen_posix(trees, menv):
 class FunTr:
     """Translate one straight-line function body into a Coq expression (continuation style)."""
 
-    def __init__(self, modname, menv, params, selfvars=None, raises=False):
+    def __init__(self, modname, menv, params, selfvars=None, raises=False, atoms=None, calls=None):
         self.m = modname
         self.menv = menv
         self.fresh = 0
         self.raises = raises
         self.params = params
+        self.atoms = atoms or {}     # source text of an expression -> (coq term, type)
+        self.calls = calls or {}     # source text of the callee -> (coq function, [argument types], result type)
 
     def const(self, name, mod=None):
         env = self.menv[mod or self.m]
@@ -437,9 +439,27 @@ class FunTr:
 
     def tb(self, v):
         e, t = v
-        return e if t == 'bool' else '(negb (Z.eqb %s 0))' % e
+        if t == 'bool':
+            return e
+        if t == 'Z':
+            return '(negb (Z.eqb %s 0))' % e
+        raise TranslationError('truth value of a %s' % t)
 
     def expr(self, n, env):
+        src0 = ast.unparse(n)
+        if src0 in self.atoms:
+            return self.atoms[src0]
+        if isinstance(n, ast.Call) and ast.unparse(n.func) in self.calls and not n.keywords:
+            fname, argtys, rty = self.calls[ast.unparse(n.func)]
+            if len(n.args) != len(argtys):
+                raise TranslationError('arity of ' + src0)
+            args = []
+            for a, ty in zip(n.args, argtys):
+                e = self.expr(a, env)
+                if e[1] != ty:
+                    raise TranslationError('argument type in %s: %s is %s, expected %s' % (src0, ast.unparse(a), e[1], ty))
+                args.append(e[0])
+            return '(%s %s)' % (fname, ' '.join(args)), rty
         if isinstance(n, ast.Constant):
             if isinstance(n.value, bool):
                 return ('true' if n.value else 'false'), 'bool'
@@ -630,12 +650,71 @@ def gen_flagfuns(trees, menv):
     return '\n'.join(out) + '\n'
 
 
+def gen_walkfuns(trees, menv):
+    """WcMatch._valid_file / _valid_folder / compare_directory: straight-line decisions over the compiled matchers, the
+    hidden test and the user hooks (which become parameters)."""
+    out = ['(* GENERATED by tools/py2v.py: statement-by-statement translation of the per-entry decisions of wcmatch.WcMatch *)',
+           'From Coq Require Import ZArith Bool List.', 'From WC Require Import Str.', '',
+           'Section WalkFuns.',
+           '  (* configuration fields set by __init__ / _parse_flags *)',
+           '  Variables (has_file_check has_folder_exclude show_hidden recursive file_pathname dir_pathname : bool).',
+           '  (* the compiled matchers (self.file_check.match / self.folder_exclude_check.match), util.is_hidden, the hooks,',
+           '     os.path.join, fullpath[self._base_len:] and _add_sep *)',
+           '  Variables (file_match folder_exclude_match is_hidden : str -> bool) (on_validate_file on_validate_directory : str -> str -> bool).',
+           '  Variables (path_join : str -> str -> str) (strip_base add_sep : str -> str).', '']
+    atoms = {'self.file_check is not None': ('has_file_check', 'bool'), 'self.folder_exclude_check': ('has_folder_exclude', 'bool'),
+             'self.show_hidden': ('show_hidden', 'bool'), 'self.recursive': ('recursive', 'bool'),
+             'self.file_pathname': ('file_pathname', 'bool'), 'self.dir_pathname': ('dir_pathname', 'bool'),
+             'base': ('base', 'str'), 'name': ('name', 'str'), 'filename': ('filename', 'str'), 'directory': ('directory', 'str'),
+             'fullpath[self._base_len:]': None}
+    calls = {'os.path.join': ('path_join', ['str', 'str'], 'str'), 'util.is_hidden': ('is_hidden', ['str'], 'bool'),
+             'self.on_validate_file': ('on_validate_file', ['str', 'str'], 'bool'),
+             'self.on_validate_directory': ('on_validate_directory', ['str', 'str'], 'bool'),
+             'self.file_check.match': ('file_match', ['str'], 'bool'),
+             'self.folder_exclude_check.match': ('folder_exclude_match', ['str'], 'bool'),
+             'self._add_sep': ('add_sep', ['str'], 'str'),
+             'self.compare_file': ('compare_file', ['str'], 'bool'), 'self.compare_directory': ('compare_directory', ['str'], 'bool')}
+
+    def one(fname, coqname, params, sig):
+        fn = find_func(trees['wcmatch'], fname, 'WcMatch')
+        args = [a.arg for a in fn.args.args if a.arg != 'self']
+        if args != params:
+            raise TranslationError('WcMatch.%s: parameters %r, expected %r' % (fname, args, params))
+        at = {k: v for k, v in atoms.items() if v is not None}
+        tr = FunTr('wcmatch', menv, args, atoms=at, calls=calls)
+
+        class SliceAware(FunTr):
+            pass
+        # `fullpath[self._base_len:]` is only meaningful once `fullpath` is bound: resolved through env below
+        orig_expr = tr.expr
+
+        def expr(n, env):
+            if ast.unparse(n) == 'fullpath[self._base_len:]' and 'fullpath' in env:
+                return '(strip_base %s)' % env['fullpath'][0], 'str'
+            return orig_expr(n, env)
+        tr.expr = expr
+
+        def k(env):
+            raise TranslationError('WcMatch.%s: control reaches the end without return' % fname)
+        body = tr.block(list(fn.body), {}, k)
+        out.append('  (* wcmatch.WcMatch.%s *)' % fname)
+        out.append('  Definition %s %s : bool :=\n %s.' % (coqname, sig, body))
+        out.append('')
+    one('compare_file', 'compare_file', ['filename'], '(filename : str)')
+    one('compare_directory', 'compare_directory', ['directory'], '(directory : str)')
+    one('_valid_file', 'valid_file', ['base', 'name'], '(base name : str)')
+    one('_valid_folder', 'valid_folder', ['base', 'name'], '(base name : str)')
+    out.append('End WalkFuns.')
+    return '\n'.join(out) + '\n'
+
+
 def generate(outdir):
     trees, menv = load_modules()
     files = {
         'Consts.v': gen_consts(trees, menv),
         'Posix.v': gen_posix(trees, menv),
         'FlagFuns.v': gen_flagfuns(trees, menv),
+        'WalkFuns.v': gen_walkfuns(trees, menv),
     }
     os.makedirs(outdir, exist_ok=True)
     changed = []
